@@ -10,7 +10,7 @@ schedule below, a corpus case replayed on the real code and a narrow oracle sign
    value put in between and subtracts the size of the entry it saw earlier;
  * `clear` resets the counters in separate steps, so a racing put leaves them wrong for good.
 What is proved instead (`_partial`) is the full claim for every history without expiring
-entries (books: also without `clear`).
+entries (books: also without `clear`); provenance of `get` answers holds for every history.
 -/
 import Cascette.Proofs.MemConc
 namespace Cascette.Props.C11
@@ -126,11 +126,51 @@ theorem mem_clear_races_put_witness :
     y.shared.count = 1 ∧ y.shared.bytes = 1 ∧ ¬ Books y.shared := by
   decide
 
+/-- **linearizability (partial: no expiring entries; `clear` and evictions included).**  For
+every number of threads, every such operation lists, every victim choice and EVERY schedule,
+stopped anywhere, the ghost log — one event per operation, appended by the operation's own
+map-access step, hence inside its invocation–response interval and in an order that respects
+real-time order, plus one `drop` per entry an eviction removed — is a sequential history in
+which every answer is the one a plain map gives at that instant (`Legal`), the stored map is
+exactly the result of that history, and the answers each thread has received are precisely its
+events of the log, in program order.  So every operation appears to take effect at one instant.
+-/
+theorem mem_linearizable_partial (cfg : Config) (vic : Store → Nat → List Key) (s0 : State)
+    (progs : List (List Op)) (sched : List Nat)
+    (hn : NoDup s0.store) (hs : NoShort s0.store)
+    (hp : ∀ p ∈ progs, ∀ op ∈ p, OpOk true op) :
+    let y := runSched (machine cfg vic) (sys s0 progs) sched
+    Legal (abs s0.store) (y.log.map (·.2)) ∧
+    abs y.shared.store = applyAll (abs s0.store) (y.log.map (·.2)) ∧
+    ∀ i t, y.threads[i]? = some t → evsOf t.results = clientLog i y.log := by
+  have h0 : LInv (abs s0.store) (sys s0 progs) := by
+    refine ⟨hn, hs, ?_, trivial, rfl, ?_⟩
+    · intro t ht
+      obtain ⟨p, hp', rfl⟩ := List.mem_map.mp ht
+      exact ⟨trivial, hp p hp'⟩
+    · intro i t hget
+      obtain ⟨p, _, rfl⟩ := List.mem_map.mp (List.mem_of_getElem? hget)
+      rfl
+  have h := runSched_inv (machine cfg vic) (LInv (abs s0.store)) (fun y i => linv_stepAt cfg vic y i) sched _ h0
+  exact ⟨h.legal, h.final, h.answers⟩
+
+/-- **⟂ the same statement with expiring entries is false**: in the witness schedule above the
+log is `get 0 ↦ none; put 0 [9]; drop 0`, the reader's removal of the fresh value is not an
+operation anybody asked for — the final map is empty although the only completed write is the
+put and nothing was removed, cleared or evicted (no eviction ran: 1 entry, max_entries 1000). -/
+theorem mem_linearizable_expiring_witness :
+    let y := runSched (machine cfgW (detVic cfgW)) (sys expired0 [[.get 0], [.put 0 [9] false]]) raceSched
+    y.log = [(0, .get 0 none), (1, .put 0 [9]), (0, .drop 0)] ∧ y.shared.store = [] := by
+  decide
+
 /-- the hypotheses of the partial theorems are satisfiable by a non-trivial instance: three
 threads racing put / remove / get on one key from an empty cache -/
 example : ∃ progs : List (List Op), progs.length = 3 ∧ (∀ p ∈ progs, ∀ op ∈ p, OpOk false op) ∧
     NoDup MemCache.init.store ∧ NoShort MemCache.init.store ∧ Books MemCache.init :=
   ⟨[[.put 0 [1] false, .get 0], [.remove 0, .put 0 [2, 2] false], [.get 0, .contains 0]], rfl,
    by decide, trivial, (fun p hp => by cases hp), rfl, rfl⟩
+
+/-- … and of the linearizability theorem, with `clear` -/
+example : ∀ p ∈ [[Op.put 0 [1] false, .clear], [.get 0, .remove 0]], ∀ op ∈ p, OpOk true op := by decide
 
 end Cascette.Props.C11
